@@ -125,7 +125,9 @@ def evalLine (line : String) : String :=
     match unhex p, unhex s with
     | some pb, some sb =>
       let pat := parsePattern pb
-      s!"{b2s pat.isValid} {b2s (pat.matches sb)}"
+      match pat.matches? sb with
+      | some m => s!"{b2s pat.isValid} {b2s m}"
+      | none => "panic"
     | _, _ => "bad-op"
   | ["cancall", c, a] =>
     match unhex c, unhex a with
